@@ -96,6 +96,22 @@ VFault(ev) ==
      \o IoTags(ev)
 
 ---------------------------------------------------------------------------
+\* C20, exhaustive sweeps: the 16-bit field at offset ev.at of ev.in was given every value lo..hi by the
+\* harness, which reports the values for which the strict decode was NOT exactly Err(<<variant(value)>>).
+\* The specification validates the scheme -- the template with the base value decodes, and for the sample
+\* values the specification itself yields exactly that error -- and then requires the report to be empty.
+WithField(b, at, x) == [i \in 1..Len(b) |-> IF i = at + 1 THEN x \div 256 ELSE IF i = at + 2 THEN x % 256 ELSE b[i]]
+
+VFaultSweep(ev) ==
+  (IF ev.out.t # "ok" THEN <<"outcome-" \o ev.out.t>>
+   ELSE IF DecodeMessage(WithField(ev.in, ev.at, ev.base_value), StrictOpts).res.t # "ok" THEN <<"harness-sweep-base">>
+   ELSE IF \E i \in 1..Len(ev.samples) :
+             DecodeMessage(WithField(ev.in, ev.at, ev.samples[i]), StrictOpts).res
+               # [t |-> "err", v |-> <<Err1(ev.variant, ev.samples[i])>>] THEN <<"harness-sweep-spec">>
+   ELSE IF ev.tested # ev.hi - ev.lo + 1 THEN <<"harness-sweep-range">>
+   ELSE T(ev.anomalies # << >>, "error-identity"))
+  \o IoTags(ev)
+
 \* C18: operation sequences on the real SliceReader against the cursor model
 RECURSIVE CursorTags(_, _, _, _)
 CursorTags(src, rd, steps, i) ==
